@@ -1,7 +1,7 @@
 def _conclusive(run):
     """networked cases are re-run by the harness before they are given up: a run in which more than a
     quarter of them stay inconclusive says nothing and must not pass silently"""
-    net = sum(run.arms.get(k, 0) for k in ("raft1", "kill", "net", "redir"))
+    net = sum(run.arms.get(k, 0) for k in ("raft1", "kill", "net", "redir", "shut"))
     bad = run.inconclusive
     run.oblig("networked-cases-conclusive", bad <= max(2, (net + bad) // 4),
               "%d inconclusive of %d networked cases" % (bad, net + bad))
@@ -11,17 +11,20 @@ CHECK = {
     "suites": [
         suite("fsm", "c01", 400, 6000, stdin=True),
         suite("redir", "c01", 3, 18, stdin=True, args=["-kind", "redir"], timeout={"quick": 600, "thorough": 1500}),
+        suite("shut", "c01", 4, 16, stdin=True, args=["-kind", "shut"], timeout={"quick": 600, "thorough": 1200}),
         suite("raft1", "c01", 0, 30, stdin=True, tiers=["thorough"], args=["-kind", "raft1"], timeout={"thorough": 1200}),
         suite("kill", "c01", 0, 16, stdin=True, tiers=["thorough"], args=["-kind", "kill"], timeout={"thorough": 1200}),
         suite("net", "c01", 0, 32, stdin=True, tiers=["thorough"], args=["-kind", "net"], timeout={"thorough": 1200}),
     ],
-    "gen": [{"pkg": "extract_c01", "out": "lean/ClusterVerif/Gen/C01Commit.lean"}],
+    "gen": [{"pkg": "extract_c01", "out": "lean/ClusterVerif/Gen/C01Commit.lean"},
+            {"pkg": "extract_c01shut", "out": "lean/ClusterVerif/Gen/C01Shutdown.lean"}],
     "extra": [_conclusive],
     "search_seeds": {"quick": 3, "thorough": 1},
     "lean_sources": ["ClusterVerif/Model/Pin.lean", "ClusterVerif/Model/C01.lean", "ClusterVerif/Spec/C01.lean",
                      "ClusterVerif/Lemmas/C01.lean", "ClusterVerif/Lemmas/PinMap.lean",
                      "ClusterVerif/Model/C01Commit.lean", "ClusterVerif/Lemmas/C01Commit.lean", "ClusterVerif/Gen/C01Commit.lean",
-                     "ClusterVerif/Model/C01Gate.lean"],
+                     "ClusterVerif/Model/C01Gate.lean", "ClusterVerif/Model/C01Shutdown.lean", "ClusterVerif/Lemmas/C01Shutdown.lean",
+                     "ClusterVerif/Gen/C01Shutdown.lean"],
     "rule": "one case = one history: a SUBMITTED sequence of 0-60 pin/unpin operations, each run through the real commit() up to its first attempt "
             "(token G: refused operations - origins, Reference=cid.Undef, undefined Cid - are answered with an error and are not committed; the model's "
             "Op.decodable must agree with every bit), the committed sequence being the LogOps over 6 CIDs (all pin types, modes/depths incl. disagreeing ones, "
@@ -36,6 +39,10 @@ CHECK = {
             "a new leader continues, and the old leader comes back (clauses judged on the survivors and on the restarted old leader). Suite redir (both tiers): three real nodes, CommitRetries 0-2, "
             "LogPin/LogUnpin/AddPeer/RmPeer submitted at a follower or the leader while the leader's RPC endpoint fails the next N forwarded requests "
             "(N = 0, retries, retries+1, retries+2), plus LogPin/LogUnpin of operations that cannot be decoded (refused before anything is forwarded, followed by an unpin that must be visible everywhere). "
+            "Suite shut (both tiers): one real Raft node on disk; acknowledged operations (optionally a forced snapshot in between), Consensus.Shutdown called with a live, a deadline-bound, "
+            "an already expired or an ALREADY CANCELLED context (tokens dl/dt/de/dc; cases k and k+1 cover all four), raft.OfflineState of the data folder compared with what the peer served when it "
+            "was shut down (clause shutdown_durable), restart on the folder, more operations, Shutdown with another context, offline read; the model event of a Shutdown is computed from the shape "
+            "extract_c01shut reads from raft.go. "
             "The undecodable stream draws origins, Reference=cid.Undef and undefined Cid. non-trivial = at least one entry applied; distinct by case line",
     "trusted_base": [
         "Raft (hashicorp/raft + raft-boltdb) delivers one committed sequence to every member, keeps every entry after a member's newest snapshot, "
@@ -47,6 +54,9 @@ CHECK = {
         "the LogOp as commit() builds it, encoded like go-libp2p-raft encodeOp; VerifRaft, VerifLogCommands read-only accessors)",
         "extract_c01 (go/ast) reads the statement skeleton of redirectToLeader/commit/AddPeer/RmPeer and of the decodability gate (call of checkDecodable on commit's op, "
         "top-level and unconditional, before the retry loop, error returned; LogPin/LogUnpin return commit's error); the fault injector of suite redir stands for an unreachable or abdicating leader",
+        "extract_c01shut (go/ast) reads raftWrapper.Shutdown / snapshotOnShutdown / Snapshot / latestSnapshot / LastStateRaw and OfflineState / Consensus.Shutdown: snapshotOnShutdown called "
+        "unconditionally before rw.raft.Shutdown(), the wait context derived from context.Background(), which errors of the wait take the snapshot-anyway arm, the snapshot after the wait, "
+        "the newest snapshot opened by the offline read and nothing replayed; unknown statement shapes give recognised := false (the model then never snapshots)",
         "recording PinTracker behind a real in-process gorpc server (calls recorded in arrival order; a slow Track handler stands for a busy tracker); in-memory datastore as cmdutils.raftStateManager.GetStore provides",
     ],
     "assumptions": [
@@ -66,10 +76,14 @@ META = {
             "replay(ops.take applied) (prefix_inv_partial) and the model's observations satisfy every clause of the property as written from its text "
             "(model_holds_partial); the commit path (commit/AddPeer/RmPeer over redirectToLeader), as a function of an oracle of attempt outcomes with the statement "
             "skeleton regenerated from the source by a go/ast translator, acknowledges only what some attempt committed, reports an error exactly when none did, and "
-            "consumes at most (CommitRetries+1)^2 attempts (ack_implies_some_attempt_committed, all_fail_reports_error, retry_bound); an applied entry hands exactly its pin to the tracker (tracker_handoff). The full-strength statements are refuted by "
+            "consumes at most (CommitRetries+1)^2 attempts (ack_implies_some_attempt_committed, all_fail_reports_error, retry_bound); "
+            "the shutdown snapshot of raft.go as a function of the context Shutdown is called with and of a shape regenerated from the source (extracted_shutdown): it is taken for every context, "
+            "caught up or not (shutdown_snapshots_every_ctx), so for every schedule the offline read of a cleanly shut down peer is exactly what it served (shutdown_offline_exact, over the invariant "
+            "reachable_snapBound) and, for a caught-up peer of any LogPin/LogUnpin history, exactly the replay of the whole sequence (clean_shutdown_offline_caught_up); the context-bound variant is refuted "
+            "(ctx_bound_shutdown_loses_acknowledged; it needs both of its sites and a cancelled context: ctx_bound_needs_both_sites_and_a_cancelled_ctx); an applied entry hands exactly its pin to the tracker (tracker_handoff). The full-strength statements are refuted by "
             "kernel-checked witnesses where the code really breaks them (prefix_inv_fails / some_prefix_fails: go-libp2p-raft snapshots are not point-in-time, K09; "
             "decode_total_fails / caught_up_exact_fails: raw log entries with origins, no longer reachable through commit). The model is tied to the code by driving the real FSM (and, thorough, real Raft "
-            "nodes incl. SIGKILL and InstallSnapshot) with seeded event scripts and comparing every observation with the model, and the Spec clauses are evaluated on the implementation's observations.",
+            "nodes incl. SIGKILL and InstallSnapshot) with seeded event scripts and, in both tiers, one real Raft node shut down with live / deadline-bound / expired / cancelled contexts whose data folder is then read offline) and comparing every observation with the model, and the Spec clauses are evaluated on the implementation's observations.",
     "note": "Trusted: Lean kernel, hand-written model/spec, Raft's log replication and durability (hashicorp/raft, boltdb), the harness playing Raft's role at FSM level, "
             "the hook files consensus/raft/verif_export_c01.go and verif_export_c01gate.go. Known finding K09 (snapshot not point-in-time) is reproduced and reported, not hidden; "
             "K01a/K01b (undecodable operations acknowledged) and K29 (hand-off order) are fixed in /repo (3d753d4, 2ba6875) and suppress nothing.",
